@@ -57,7 +57,7 @@ def frontend(harnesses, out, extra_overlays=None):
         if h.pkg.startswith('wallet'): pkgs |= {MOD + '/wallet/...', MOD + '/mint/...'}
     ov = overlays_for(harnesses)
     if extra_overlays: ov.update(extra_overlays)
-    cmd = [os.path.join(VERIF, 'bin', 'ssa2json'), '-o', out]
+    cmd = [os.path.join(VERIF, 'bin', 'ssa2json'), '-dir', REPO, '-o', out]
     for v, r in sorted(ov.items()): cmd += ['-overlay', '%s=%s' % (v, r)]
     cmd += sorted(pkgs)
     t = time.time()
@@ -79,6 +79,8 @@ def make_engine(ir, h, known):
         from .models import jsonm; jsonm.install(E)
     if 'threads' in h.models:
         from .models import threads; threads.install(E)
+    if 'http' in h.models:
+        from .models import httpm; httpm.install(E)
     if 'wallet' in h.models:
         from .models import walletenv; walletenv.install(E)
     from .models import summaries
